@@ -1011,20 +1011,26 @@ pub fn run(ctx: &Ctx) -> i32 {
     // lossy schedules
     let g = Group { name: "lossy", cases: ctx.tier.pick(40_000, 2_000_000), budget_s: ctx.tier.pick(15.0, 300.0), exhaustive: false };
     run_group(ctx, &mut rep, &g, |_, seed, trace| lossy_case(seed, trace));
+    // recycled stream state: the C01 `recycle` worlds (stream-count limits of 1..3, dozens of short
+    // streams one after the other, a third to two thirds of them stopped, a quarter reset) under the
+    // application-boundary stream monitor, so that every stream inherits the freed state of an
+    // earlier one; only the C11 rules are judged here
+    let g = Group { name: "recycle", cases: ctx.tier.pick(800, 40_000), budget_s: ctx.tier.pick(15.0, 150.0), exhaustive: false };
+    run_group(ctx, &mut rep, &g, |_, seed, trace| super::c01::recycle_case(seed, trace, false));
     rep.extra.insert("exhaustive_depth".into(), json!({"uni": d_uni, "bidi": d_bi, "uni_sequences": n_uni, "bidi_sequences": n_bi}));
     finish(
         ctx,
         &rep,
         Finish {
             level: "exploration",
-            rule: format!("every sequence of length {d_uni} over an 11-operation alphabet on a client-initiated unidirectional stream ({n_uni} sequences) and of length {d_bi} over a 19-operation alphabet on a bidirectional one ({n_bi}), plus random sequences of length 6..40: client write/finish/reset/stopped()/set_priority, server accept/read(ordered)/read(unordered)/stop/received_reset, (bidi) the mirrored operations in the other direction, and a move that carries all datagrams until the world is quiet. Each is run on a fresh connected plaintext-lane pair and on the reference model in lock step; compared after every operation: the return value class (Ok(n), Blocked, Stopped(c), ClosedStream, Data(n)+End/Blocked/Reset(c), IllegalOrderedRead), Finished/Stopped event multisets on both sides, events for unused streams, and the server's remote_open_streams. Distinct = distinct executed operation sequences. (lossy) random sequences of 8..38 moves on one stream where the network moves are: both sides emit, one world event (a delivery or a timer), the next queued datagram is lost, carry everything. No model of the wire state is possible there, so the oracle is what the two applications can know from return values and events alone: write/finish/reset/stopped() report ClosedStream only after this application finished or reset the stream (reset and stopped(): only after a reset or the Finished event - data outstanding behind an acknowledged FIN keeps the half open), Finished at most once, only after finish() and never after a successful reset(), the receiver never reads more than was written, reaches the end only of a finished stream after all bytes, sees a reset only if reset() succeeded and with its code, Stopped only with the receiver's code; after a final quiet network a finished, untouched stream has reported Finished."),
+            rule: format!("every sequence of length {d_uni} over an 11-operation alphabet on a client-initiated unidirectional stream ({n_uni} sequences) and of length {d_bi} over a 19-operation alphabet on a bidirectional one ({n_bi}), plus random sequences of length 6..40: client write/finish/reset/stopped()/set_priority, server accept/read(ordered)/read(unordered)/stop/received_reset, (bidi) the mirrored operations in the other direction, and a move that carries all datagrams until the world is quiet. Each is run on a fresh connected plaintext-lane pair and on the reference model in lock step; compared after every operation: the return value class (Ok(n), Blocked, Stopped(c), ClosedStream, Data(n)+End/Blocked/Reset(c), IllegalOrderedRead), Finished/Stopped event multisets on both sides, events for unused streams, and the server's remote_open_streams. Distinct = distinct executed operation sequences. (lossy) random sequences of 8..38 moves on one stream where the network moves are: both sides emit, one world event (a delivery or a timer), the next queued datagram is lost, carry everything. No model of the wire state is possible there, so the oracle is what the two applications can know from return values and events alone: write/finish/reset/stopped() report ClosedStream only after this application finished or reset the stream (reset and stopped(): only after a reset or the Finished event - data outstanding behind an acknowledged FIN keeps the half open), Finished at most once, only after finish() and never after a successful reset(), the receiver never reads more than was written, reaches the end only of a finished stream after all bytes, sees a reset only if reset() succeeded and with its code, Stopped only with the receiver's code; after a final quiet network a finished, untouched stream has reported Finished. (recycle) honest worlds with stream-count limits of 1..3 and 8..32 short streams per connection, 30-60% stopped by the reader and 25% reset by the writer, under loss up to 5%: the application-boundary stream monitor (read/stop report ClosedStream only after this application stopped the stream or saw its terminal outcome; terminal outcomes at most once and consistent with what the peer did) is applied to streams that reuse the freed state of earlier ones."),
             assumptions: vec![
                 "operations take no virtual time; a network move delivers what was queued by earlier operations before the acknowledgements it triggers, which makes STOP_SENDING-vs-ACK races deterministic".into(),
                 "windows are large enough that writes never block".into(),
             ],
             min_evals: ctx.tier.pick(50_000, 1_000_000),
             min_nontrivial: ctx.tier.pick(30_000, 500_000),
-            required: vec!["c11.lossy.dropped", "c11.lossy.reset_after_finish_ok", "c11.ops_compared", "c11.op.Net", "c11.op.SReadU", "c11.op.CReset", "c11.op.SStop", "c11.op.SFinish", "c11.op.CResetQ"],
+            required: vec!["c11.lossy.dropped", "c11.lossy.reset_after_finish_ok", "c11.ops_compared", "c11.op.Net", "c11.op.SReadU", "c11.op.CReset", "c11.op.SStop", "c11.op.SFinish", "c11.op.CResetQ", "app.stop"],
             exhaustive: false,
         },
         t.elapsed().as_secs_f64(),
